@@ -275,7 +275,8 @@ def exec (T : CrdtOps σ ω) (m : MState σ ω) (toks : List String) : MState σ
           -- a panicking `==` aborts the whole command in the harness (state unchanged)
           if same = "panic" then (m, "panic") else
           let m' := m.setRep r s'
-          (m', "json=" ++ showErr text ++ " same=" ++ same ++ " " ++ T.obs s')
+          -- C19 (`*_roundtrip`): the restored value equals the original
+          (m', withSpec ("json=" ++ showErr text ++ " same=" ++ same ++ " " ++ T.obs s') "same=true")
         | (text, none) => (m, "json=" ++ showErr text ++ " norestore")
       | _, _ => (m, "nopersist")
   | ["PO", name] =>
@@ -286,7 +287,9 @@ def exec (T : CrdtOps σ ω) (m : MState σ ω) (toks : List String) : MState σ
       | none => (m, "nopersist")
       | some p =>
         match p op with
-        | (text, some op') => ({ m with ops := setKey name op' m.ops }, "json=" ++ showErr text ++ " op=" ++ T.showOp op')
+        | (text, some op') =>
+          -- C19: the restored op is the original op
+          ({ m with ops := setKey name op' m.ops }, withSpec ("json=" ++ showErr text ++ " op=" ++ T.showOp op') ("op=" ++ T.showOp op))
         | (text, none) => (m, "json=" ++ showErr text ++ " norestore")
   | ["ML", r1, r2, r3] =>
     match m.rep r1, m.rep r2, m.rep r3, T.merge with
